@@ -3,6 +3,7 @@ package main
 // C02 — JOIN queries through the real octosql binary (see lean/Octo/Drv/C02.lean for the line protocol).
 
 import (
+	"bytes"
 	"bufio"
 	"encoding/hex"
 	"fmt"
@@ -16,7 +17,7 @@ import (
 )
 
 func init() {
-	register("C02", &prop{gen: genC02, drive: driveJoin})
+	register("C02", &prop{gen: genC02, drive: driveC02})
 }
 
 func genC02(g *Gen, tier string, w *bufio.Writer) {
@@ -38,6 +39,18 @@ func genC02(g *Gen, tier string, w *bufio.Writer) {
 	}
 	for i := 0; i < late; i++ {
 		fmt.Fprintln(w, genLateMatchOp(g, i))
+	}
+	// the join nodes themselves under chosen interleavings, event times and watermarks (what the CLI cannot steer): a
+	// sample of C19's scheduled runs of the real StreamJoin / OuterJoin, judged by C19's oracle (consolidated output =
+	// the SQL join of the consolidated inputs, at every watermark and at the end)
+	var buf bytes.Buffer
+	bw := bufio.NewWriter(&buf)
+	genC19(g, tier, bw)
+	bw.Flush()
+	for i, line := range strings.Split(buf.String(), "\n") {
+		if line != "" && i%8 == 5 {
+			fmt.Fprintln(w, line)
+		}
 	}
 }
 
@@ -134,6 +147,13 @@ func writeJoinTables(toks []string, dir string) string {
 		}
 	}
 	return ""
+}
+
+func driveC02(toks []string) string {
+	if toks[0] == "sj" || toks[0] == "oj" {
+		return driveC19(toks)
+	}
+	return driveJoin(toks)
 }
 
 func driveJoin(toks []string) string {
